@@ -203,7 +203,8 @@ pub fn walk(x: &[u8], kind: Kind, dset: &[u32], pre: u8) -> Result<(u64, u64), (
     let all = ids_of(&before.msg, kind);
     let n = all.len() as u64;
     let bound = 2 * n + dset.len() as u64 * n + 4;
-    let mut pp = DNSSector::new(x.to_vec()).unwrap().parse().map_err(|e| ("harness".to_string(), format!("start rejected: {}", e)))?;
+    // (a packet that is well-formed by the reference but refused by this tree's parser is C02's business: skipped)
+    let mut pp = DNSSector::new(x.to_vec()).unwrap().parse().map_err(|e| ("start-rejected".to_string(), format!("start rejected: {}", e)))?;
     if warm {
         // a packet that was already edited once (pointer-free, question memoised), as in a real hook chain
         pp.recompute().map_err(|e| ("harness".to_string(), format!("recompute failed: {}", e)))?;
@@ -348,6 +349,8 @@ fn one_w(ctx: &mut Ctx, x: &[u8], kind: Kind, dset: &[u32], desc: &str, pre: u8)
             if cls == "harness" {
                 ctx.count("harness_error");
                 ctx.notes.push(format!("harness: C11 {}: {}", desc, detail));
+            } else if cls == "start-rejected" {
+                ctx.count("starts_refused_by_this_tree");
             } else {
                 ctx.violation("C11", format!("walk|{}", cls), format!("{} delete {:?}: {}", desc, dset, detail), x);
             }
